@@ -54,23 +54,27 @@ impl CopySource {
     /// # Errors
     /// Returns an error if the header is invalid
     pub fn parse(header: &str) -> Result<Self, ParseCopySourceError> {
-        let header = urlencoding::decode(header).map_err(|_| ParseCopySourceError::InvalidEncoding)?;
-        let header = header.strip_prefix('/').unwrap_or(&header);
+        let decode = |s: &str| urlencoding::decode(s).map(|s| s.into_owned()).map_err(|_| ParseCopySourceError::InvalidEncoding);
+
+        // the query part is separated before decoding: an encoded `?` (`%3F`) belongs to the key
+        let (path, version_id) = match header.split_once('?') {
+            Some((path, remaining)) => {
+                let version_id = remaining
+                    .split_once('=')
+                    .and_then(|(name, val)| (name == "versionId").then_some(val));
+                (path, version_id)
+            }
+            None => (header, None),
+        };
+
+        let path = decode(path)?;
+        let path = path.strip_prefix('/').unwrap_or(&path);
+        let version_id = version_id.map(decode).transpose()?;
 
         // FIXME: support access point
-        match header.split_once('/') {
+        match path.split_once('/') {
             None => Err(ParseCopySourceError::PatternMismatch),
-            Some((bucket, remaining)) => {
-                let (key, version_id) = match remaining.split_once('?') {
-                    Some((key, remaining)) => {
-                        let version_id = remaining
-                            .split_once('=')
-                            .and_then(|(name, val)| (name == "versionId").then_some(val));
-                        (key, version_id)
-                    }
-                    None => (remaining, None),
-                };
-
+            Some((bucket, key)) => {
                 if !path::check_bucket_name(bucket) {
                     return Err(ParseCopySourceError::InvalidBucketName);
                 }
@@ -90,12 +94,14 @@ impl CopySource {
 
     #[must_use]
     pub fn format_to_string(&self) -> String {
+        // the header value is URL-encoded; `/` in keys is kept readable
+        let encode_key = |s: &str| urlencoding::encode(s).replace("%2F", "/");
         let mut buf = String::new();
         match self {
             CopySource::Bucket { bucket, key, version_id } => {
-                write!(&mut buf, "{bucket}/{key}").unwrap();
+                write!(&mut buf, "{bucket}/{}", encode_key(key)).unwrap();
                 if let Some(version_id) = version_id {
-                    write!(&mut buf, "?versionId={version_id}").unwrap();
+                    write!(&mut buf, "?versionId={}", urlencoding::encode(version_id)).unwrap();
                 }
             }
             CopySource::AccessPoint { .. } => {
